@@ -1597,13 +1597,41 @@ fn roundtrips(runs: &[HonestRun], kadc: &[(Item, KExp)], only: Option<(&str, &st
             other => rt.fail(Dec::MsMessage, kind.split('/').next().unwrap_or(kind), format!("{kind}: decode(encode(v)) = {other:?}"), kind),
         }
     }
+    // every name length 1..=300 as a single proposal and as the first / only entry of an `ls` response (the length
+    // prefix of the first entry takes every one-byte value, including the ones that look like the start of another
+    // message kind)
+    if want(Dec::MsMessage, "length-sweep") {
+        for len in 1..=300usize {
+            let name: Vec<u8> = std::iter::once(b'/').chain(std::iter::repeat(b'n').take(len - 1)).collect();
+            let Ok(p) = Protocol::try_from(name.as_slice()) else { continue };
+            for (kind, m) in [
+                ("protocol", Message::Protocol(p.clone())),
+                ("protocols", Message::Protocols(vec![p.clone()])),
+                ("protocols", Message::Protocols(vec![p.clone(), proto(b"/")])),
+            ] {
+                rt.checked += 1;
+                let r = guard(|| Message::decode(Bytes::from(enc(&m))));
+                match r {
+                    Ok(Ok(m2)) if m2 == m => {}
+                    other => {
+                        let mut o = format!("{other:?}");
+                        o.truncate(200);
+                        rt.fail(Dec::MsMessage, kind, format!("{kind} with a first name of {len} bytes: decode(encode(v)) = {o}"), "length-sweep");
+                        break;
+                    }
+                }
+            }
+        }
+    }
     if only.is_none() {
         // values the wire format cannot carry: recorded, not judged
         for (what, name) in [
             ("protocol name containing a line feed", b"/a\nb".to_vec()),
             ("protocol name equal to the multistream header", b"/multistream/1.0.0".to_vec()),
         ] {
-            let m = Message::Protocol(proto(&name));
+            // (a tree in which the constructor itself refuses such a name has nothing to record here)
+            let Ok(p) = Protocol::try_from(name.as_slice()) else { continue };
+            let m = Message::Protocol(p);
             let r = guard(|| Message::decode(Bytes::from(enc(&m))));
             rt.exceptions.push(json!({
                 "decoder": Dec::MsMessage.name(),
